@@ -465,8 +465,19 @@ def conc_sessions(ctx, n=None, only=None):
             outs[("w%d" % i).encode()] = chunks
         if only is not None:
             outs = {bytes.fromhex(a): [bytes.fromhex(c) for c in cs] for a, cs in only["outs"]}
+        bias = {"C07": ["push", "push", "push", "stat", "pull", "shell"], "C08": ["pull", "pull", "push", "stat", "shell"],
+                "C09": ["stat", "stat", "pull", "push", "shell"], "C10": ["push", "pull", "stat"]}.get(ctx.prop, ["shell", "shell", "push", "stat", "pull"])
+        kinds = (only or {}).get("kinds") or [rng.choice(bias) for _ in range(nw)]
+        pushed = {i: bytes([97 + i]) * rng.choice([10, 3000, 5000]) for i in range(nw)}
+        pulled = {i: bytes([65 + i]) * rng.choice([0, 7, 9000]) for i in range(nw)}
+        if only is not None:
+            pushed = {int(k2): bytes.fromhex(v) for k2, v in only.get("pushed", {}).items()}
+            pulled = {int(k2): bytes.fromhex(v) for k2, v in only.get("pulled", {}).items()}
+        fs = {("/r%d" % i).encode(): pulled[i] for i in range(nw)}
+        stat = {("/r%d" % i).encode(): (33188 + i, len(pulled[i]), 1000 + i) for i in range(nw)}
         clock = transports.Clock(1 << 40)
-        link = transports.Link(clock, [dict(sim=dict(maxdata=4096, shell=dict(outs), burst=bool((only or {}).get("burst", rng.random() < 0.3))), dt=1)])
+        link = transports.Link(clock, [dict(sim=dict(maxdata=4096, shell=dict(outs), fs=fs, stat=stat, burst=bool((only or {}).get("burst", rng.random() < 0.3)),
+                                                   zero_local=bool((only or {}).get("zero_local", rng.random() < 0.2))), dt=1)])
         sync_mod.time = clock
         async_mod.time = clock
         order = (only or {}).get("order")
@@ -495,11 +506,34 @@ def conc_sessions(ctx, n=None, only=None):
             link.bulk_read, link.bulk_write = br, bw
             tracer = sched.line_tracer(baton, {AdbDevice._open.__code__}) if lines else None
 
+            import io as _io
+
+            class ParkIO(_io.BytesIO):
+                """Local file object whose read()/write() is a scheduling point (a thread can lose the CPU inside file IO)."""
+
+                def read(self, *a):
+                    baton.park(("io",))
+                    return _io.BytesIO.read(self, *a)
+
+                def write(self, b):
+                    baton.park(("io",))
+                    return _io.BytesIO.write(self, b)
+
             def worker(i):
                 if tracer:
                     sys.settrace(tracer)
                 try:
-                    results[i] = ("ok", dev.shell(cmds[i].decode(), transport_timeout_s=1.0, read_timeout_s=5.0, decode=False))
+                    if kinds[i] == "shell":
+                        results[i] = ("ok", dev.shell(cmds[i].decode(), transport_timeout_s=1.0, read_timeout_s=5.0, decode=False))
+                    elif kinds[i] == "push":
+                        dev.push(ParkIO(pushed[i]), "/w%d" % i, mtime=5, transport_timeout_s=1.0, read_timeout_s=5.0)
+                        results[i] = ("ok", None)
+                    elif kinds[i] == "stat":
+                        results[i] = ("ok", tuple(dev.stat("/r%d" % i, transport_timeout_s=1.0, read_timeout_s=5.0)))
+                    else:
+                        sink = ParkIO()
+                        dev.pull("/r%d" % i, sink, transport_timeout_s=1.0, read_timeout_s=5.0)
+                        results[i] = ("ok", sink.getvalue())
                 except Exception as exc:  # noqa
                     results[i] = ("err", type(exc).__name__)
                 finally:
@@ -541,8 +575,19 @@ def conc_sessions(ctx, n=None, only=None):
 
                 async def worker(i):
                     await baton.park(i, ("start",))
+                    import io as _io
                     try:
-                        results[i] = ("ok", await dev.shell(cmds[i].decode(), transport_timeout_s=1.0, read_timeout_s=5.0, decode=False))
+                        if kinds[i] == "shell":
+                            results[i] = ("ok", await dev.shell(cmds[i].decode(), transport_timeout_s=1.0, read_timeout_s=5.0, decode=False))
+                        elif kinds[i] == "push":
+                            await dev.push(_io.BytesIO(pushed[i]), "/w%d" % i, mtime=5, transport_timeout_s=1.0, read_timeout_s=5.0)
+                            results[i] = ("ok", None)
+                        elif kinds[i] == "stat":
+                            results[i] = ("ok", tuple(await dev.stat("/r%d" % i, transport_timeout_s=1.0, read_timeout_s=5.0)))
+                        else:
+                            sink = _io.BytesIO()
+                            await dev.pull("/r%d" % i, sink, transport_timeout_s=1.0, read_timeout_s=5.0)
+                            results[i] = ("ok", sink.getvalue())
                     except Exception as exc:  # noqa
                         results[i] = ("err", type(exc).__name__)
                     finally:
@@ -572,8 +617,9 @@ def conc_sessions(ctx, n=None, only=None):
         sim = link.used[0].sim
         rep.evaluations += 1
         rep.count("conc_sessions_mode", mode)
-        ser = dict(kind="conc-sessions", mode=mode, workers=nw, start=start, lines=bool(lines), burst=bool(sim.cfg.get("burst")),
-                   outs=[[a.hex(), [c.hex() for c in cs]] for a, cs in sorted(outs.items())], order=sched_order)
+        ser = dict(kind="conc-sessions", mode=mode, workers=nw, start=start, lines=bool(lines), burst=bool(sim.cfg.get("burst")), zero_local=bool(sim.cfg.get("zero_local")),
+                   outs=[[a.hex(), [c.hex() for c in cs]] for a, cs in sorted(outs.items())], order=sched_order, kinds=kinds,
+                   pushed={str(k2): v.hex() for k2, v in pushed.items()}, pulled={str(k2): v.hex() for k2, v in pulled.items()})
         rep.signatures.add(("concsess", mode, nw, tuple(sched_order[:40])))
         fails = []
         if deadlock:
@@ -585,15 +631,29 @@ def conc_sessions(ctx, n=None, only=None):
             if len(set(opens)) != len(opens) or any(not (1 <= a <= 2 ** 32 - 1) for a in opens):
                 fails.append(("duplicate-or-invalid-id", "concurrent opens from counter %d carried local ids %r" % (start, opens)))
             for i in range(nw):
-                want = b"".join(outs[cmds[i]])
                 r = results[i]
                 if r is None:
                     fails.append(("incomplete", "worker %d never finished" % i))
-                elif r[0] == "ok" and bytes(r[1]) != want:
-                    fails.append(("crosstalk-or-reorder", "worker %d (%s) got %r, the device wrote %r on its stream" % (i, cmds[i].decode(), bytes(r[1]), want)))
+                    continue
+                if r[0] == "ok":
+                    if kinds[i] == "shell":
+                        want = b"".join(outs[cmds[i]])
+                        if bytes(r[1]) != want:
+                            fails.append(("crosstalk-or-reorder", "worker %d (%s) got %r, the device wrote %r on its stream" % (i, cmds[i].decode(), bytes(r[1]), want)))
+                    elif kinds[i] == "push":
+                        got = sim.files_received.get(("/w%d" % i).encode())
+                        if got is None or got[2] != pushed[i]:
+                            fails.append(("crosstalk-or-reorder", "worker %d pushed %d bytes to /w%d; the device holds %s" % (i, len(pushed[i]), i, "nothing" if got is None else "%d bytes (first differing byte at %s)" % (
+                                len(got[2]), next((j for j in range(min(len(got[2]), len(pushed[i]))) if got[2][j] != pushed[i][j]), "the end")))))
+                    elif kinds[i] == "stat":
+                        if tuple(r[1]) != (33188 + i, len(pulled[i]), 1000 + i):
+                            fails.append(("crosstalk-or-reorder", "worker %d stat(/r%d) returned %r, the device answered %r" % (i, i, r[1], (33188 + i, len(pulled[i]), 1000 + i))))
+                    else:
+                        if bytes(r[1]) != pulled[i]:
+                            fails.append(("crosstalk-or-reorder", "worker %d pulled %d bytes of /r%d, the device file has %d" % (i, len(r[1]), i, len(pulled[i]))))
                 elif r[0] == "err":
                     kind = "lost-clse-no-entry" if lost and not any(f[0] in ("malformed-wire", "duplicate-or-invalid-id") for f in fails) else "incomplete"
-                    fails.append((kind, "worker %d (%s) raised %s on a healthy device%s" % (i, cmds[i].decode(), r[1], " after its CLSE was dropped by put() (K1)" if kind == "lost-clse-no-entry" else "")))
+                    fails.append((kind, "worker %d (%s) raised %s on a healthy device%s" % (i, kinds[i], r[1], " after its CLSE was dropped by put() (K1)" if kind == "lost-clse-no-entry" else "")))
         for kind, why in fails:
             if kind == "lost-clse-no-entry" and ctx.prop != "C06":
                 continue        # K1 belongs to C06 (known finding there); other properties only look at their own clauses here
@@ -604,6 +664,98 @@ def conc_sessions(ctx, n=None, only=None):
             rep.prop_failures.append(dict(case=ser, why=why, signature=dict(kind=kind), no_shrink=True, replay_with="conc-sessions"))
         if len([f for f in rep.prop_failures if f["signature"]["kind"] != "lost-clse-no-entry"]) > 5:
             break
+
+
+def conc_two_devices(ctx, n=None, only=None):
+    """Two AdbDevice objects, each on its own connection with short writes, used from two threads at once under one baton scheduler
+    (control changes hands inside every transport call): each device's outgoing byte stream must consist of whole well-formed messages
+    and each shell() must return its own device's output.  State shared between AdbDevice objects (class attributes, module globals)
+    is what this exercises; the per-device locks cannot protect it."""
+    import transports
+    import adb_shell.adb_device as sync_mod
+    from adb_shell.adb_device import AdbDevice
+    rep = ctx.report
+    total = 1 if only is not None else (n if n is not None else int((20 if ctx.tier == "quick" else 300) * ctx.budget))
+    for k in range(total):
+        rng = ctx.rng
+        ndev = 2
+        outs = [[bytes([65 + d]) * rng.randrange(1, 6) for _ in range(rng.choice([1, 2]))] for d in range(ndev)]
+        cmdlen = [rng.choice([2, 10, 40]) for d in range(ndev)]
+        ofr = [[rng.choice([1, 3, 7, 20, 24, 30]) for _ in range(60)] for d in range(ndev)]
+        order = None
+        if only is not None:
+            outs = [[bytes.fromhex(c) for c in o] for o in only["outs"]]
+            cmdlen, ofr, order = only["cmdlen"], only["ofrags"], only.get("order")
+        clock = transports.Clock(1 << 40)
+        sync_mod.time = clock
+        cmds = [("x%d" % d).ljust(cmdlen[d], "y").encode() for d in range(ndev)]
+        links = [transports.Link(clock, [dict(sim=dict(maxdata=4096, shell={cmds[d]: outs[d]}), dt=1, ofrags=list(ofr[d]))]) for d in range(ndev)]
+        baton = sched.Baton(rng, fixed=order)
+        devs = []
+        for d in range(ndev):
+            dev = AdbDevice(transports.MemTransport(links[d]), banner=b"verif")
+            dev.connect()
+            dev._local_id_lock = sched.SchedLock(baton, "localId%d" % d)
+            dev._io_manager._transport_lock = sched.SchedLock(baton, "transport%d" % d)
+            dev._io_manager._store_lock = sched.SchedLock(baton, "store%d" % d)
+            link = links[d]
+
+            def wrap(link=link):
+                orig_r, orig_w = link.bulk_read, link.bulk_write
+
+                def br(nb, t):
+                    baton.park(("io",))
+                    return orig_r(nb, t)
+
+                def bw(data, t):
+                    baton.park(("io",))
+                    r = orig_w(data, t)
+                    baton.park(("io",))
+                    return r
+                link.bulk_read, link.bulk_write = br, bw
+            wrap()
+            devs.append(dev)
+        results = [None] * ndev
+
+        def worker(i):
+            try:
+                results[i] = ("ok", devs[i].shell(cmds[i].decode(), transport_timeout_s=1.0, read_timeout_s=5.0, decode=False))
+            except Exception as exc:  # noqa
+                results[i] = ("err", type(exc).__name__)
+        deadlock = None
+        threads = baton.spawn([lambda i=i: worker(i) for i in range(ndev)])
+        try:
+            baton.drive()
+        except sched.Deadlock as exc:
+            deadlock = str(exc)
+        for t in threads:
+            t.join(timeout=2.0)
+        rep.evaluations += 1
+        rep.count("conc_two_devices", "run")
+        ser = dict(kind="conc-two-devices", outs=[[c.hex() for c in o] for o in outs], cmdlen=cmdlen, ofrags=ofr, order=list(baton.picks))
+        fails = []
+        if deadlock:
+            fails.append(("deadlock", "deadlock: " + deadlock))
+        for d in range(ndev):
+            sim = links[d].used[0].sim
+            if sim.malformed is not None:
+                fails.append(("malformed-wire", "device %d received bytes that are not whole well-formed messages (header fields %r) while another AdbDevice was sending" % (d, sim.malformed)))
+            r = results[d]
+            if r is None or r[0] != "ok" or bytes(r[1]) != b"".join(outs[d]):
+                fails.append(("crosstalk-or-reorder", "device %d: shell returned %r, its adbd wrote %r" % (d, r, b"".join(outs[d]))))
+        for kind, why in fails:
+            rep.prop_failures.append(dict(case=ser, why=why, signature=dict(kind=kind), no_shrink=True, replay_with="conc-two-devices"))
+        if len(rep.prop_failures) > 5:
+            break
+
+
+def replay_conc_two_devices(ctx, fl):
+    before = len(ctx.report.prop_failures)
+    conc_two_devices(ctx, only=fl["case"])
+    new = ctx.report.prop_failures[before:]
+    for f in new:
+        print("FAIL:", f["why"])
+    return not new
 
 
 def replay_conc_sessions(ctx, fl):
